@@ -85,6 +85,10 @@ def point_family(rng):
     for i, n in enumerate(names):
         d = dict(base); d[n] = base[n] + 1
         fam.append((f"value_changed{i}", d))
+        d = dict(base); d[n] = math.nextafter(float(base[n]), math.inf)
+        fam.append((f"value_next_float{i}", d))
+        d = dict(base); d[n] = float(base[n]) * (1 + 1e-10) if base[n] else 1e-300
+        fam.append((f"value_nearly_equal{i}", d))
         d = dict(base); del d[n]
         fam.append((f"dropped{i}", d))
         d = dict(base); v = d.pop(n); d[n + "_"] = v
